@@ -194,7 +194,7 @@ Example C05_model_runs :
   match viewshed_model (fun x => x / (1 + abs x))%float
           [[0; 0; 0]; [0; 5; 0]; [0; 0; 0]]%float [0; 1; 2]%float [0; 1; 2]%float
           0%float 0%float 1%float 0%float with
-  | VsOk g s f => g = s /\ g = f /\ nthZ 0%float (nthZ [] g 2) 2 = (-1)%float /\ nthZ 0%float (nthZ [] g 0) 0 = 180%float
+  | VsOk g s f p => p = true /\ g = s /\ g = f /\ nthZ 0%float (nthZ [] g 2) 2 = (-1)%float /\ nthZ 0%float (nthZ [] g 0) 0 = 180%float
   | _ => False
   end.
 Proof. vm_compute. repeat split; reflexivity. Qed.
